@@ -11,7 +11,9 @@ hint = {
  "a": "Prefer a change in the Python code if the property mentions Python, otherwise Rust.",
  "b": "Prefer a change in the Rust core (sc62015/core/src) if the property involves it, otherwise pick a different Python site than the most obvious one.",
  "c": "Prefer a change whose effect depends on an INTERACTION of two features (for example an addressing prefix together with a counted instruction, an interrupt arriving while halted, a snapshot taken during a debounce window, a label defined in another section, a page boundary together with a stack operation); avoid the most obvious single arithmetic or table site, and avoid sites where the surrounding code already looks inconsistent.",
-}[variant]
+}
+hint["d"] = hint["c"]
+hint = hint[variant]
 print(f"""You are helping test a verification framework for the repository mblsha/binja-esr (a Binary Ninja plugin + emulator for the Sharp SC62015 CPU: decoder/encoder, LLIL lifter, assembler, PC-E500 machine emulator in Python under pce500/, and a Rust core under sc62015/core).
 
 Your job: produce ONE realistic, subtle code change ("seeded defect") to the repository that BREAKS the following semantic property while the code still compiles/imports and the existing pinned test suite still passes, plus a small demonstration that fails with your change and passes without it.
